@@ -237,6 +237,43 @@ func (it *orderInterp) exec(st ast.Stmt, env map[types.Object]*oval) *retSignal 
 		return nil
 	case *ast.ExprStmt, *ast.EmptyStmt:
 		return nil
+	case *ast.SwitchStmt:
+		if x.Init != nil {
+			if r := it.exec(x.Init, env); r != nil {
+				return r
+			}
+		}
+		var tag *oval
+		if x.Tag != nil {
+			tag = it.eval(x.Tag, env)
+		}
+		var deflt *ast.CaseClause
+		for _, cc := range x.Body.List {
+			clause := cc.(*ast.CaseClause)
+			if clause.List == nil {
+				deflt = clause
+				continue
+			}
+			for _, ce := range clause.List {
+				var hit *oval
+				if tag == nil {
+					hit = it.eval(ce, env)
+				} else {
+					hit = it.compare(token.EQL, tag, it.eval(ce, env))
+				}
+				if hit.kind != ovBool {
+					it.fail("non-boolean case")
+					return &retSignal{oopaque()}
+				}
+				if hit.b {
+					return it.execBlock(clause.Body, env)
+				}
+			}
+		}
+		if deflt != nil {
+			return it.execBlock(deflt.Body, env)
+		}
+		return nil
 	}
 	it.fail(fmt.Sprintf("unsupported statement %T", st))
 	return &retSignal{oopaque()}
